@@ -9,7 +9,7 @@
   R15.7  positions are ordered only after normalisation: no ordering comparison between two raw index arguments
 """
 import re
-from .lib import mirq, astq, immut
+from .lib import mirq, astq, immut, cdeps
 from .lib.facts import strip_generics, find_nodes, op_local, op_place
 
 SEQ = 'builtin::sequence::XSequence'
@@ -58,23 +58,54 @@ def run(ctx):
             r4.inst({'variant': var, 'body': b.id, 'site': mirq.site(b, i, j)}, ok=ok, kind=(var, b.id, i))
             if not ok:
                 r4.fail('%s/%s-literal' % (b.nid, var), mirq.site(b, i, j), 'XSequence::%s is constructed outside %s: its invariants (non-empty finite parts / end <= len, start < end, no nested slice) are not established' % (var, owner.split('::')[-1]))
-    fn = [f2 for f, f2, im in astq.all_fns(ast) if f == F and f2['name'] == 'slice' and im is not None]
-    if fn:
-        arms = [a for m, _ in find_nodes(fn[0]['body'], lambda y: y.get('k') == 'match') for a in m['arms']]
-        flat = [a for a in arms if 'Self::Slice(' in src(a['pat'])]
-        ok = False
-        for a in flat:
-            bsrc = ''.join(src(x) for x, _ in find_nodes(a['body'], lambda y: 's' in y and y.get('k') in ('call',)))
-            ok = 'old_start+start' in bsrc and 'old_start+end' in bsrc and 'origin.clone()' in bsrc
-        r4.inst({'slice_of_slice': 'Slice(origin, old_start+start, end.map(old_start+end))'}, ok=ok)
-        if not ok:
+    sl = mir.find(SEQ + '::slice')
+    if len(sl) != 1:
+        r4.fail('anchor/slice', F, 'XSequence::slice not found')
+    else:
+        b = sl[0]
+        aggs = [(i, j, s) for i, j, s in b.stmts() if s['k'] == 'assign' and s['rv']['k'] == 'agg' and s['rv'].get('adt') == SEQ and s['rv'].get('v') == 'Slice']
+        # (flatten) one of the two constructions takes its source and offsets from the payload of an existing Slice and adds
+        # the requested start to the old start
+        def payload_fields(local):
+            out = set()
+            for l in mirq.backslice(b, [local]):
+                for kind, dbb, idx, x in b.defs().get(l, []):
+                    if kind != 'stmt':
+                        continue
+                    pl = x['rv'].get('place') or (op_place(x['rv']['op']) if x['rv']['k'] in ('use', 'cast') else None)
+                    if pl and any(isinstance(e, dict) and e.get('dc') == 'Slice' for e in pl['p']):
+                        out |= {e['f'] for e in pl['p'] if isinstance(e, dict) and 'f' in e}
+            return out
+        flat = False
+        for i, j, s in aggs:
+            ops = s['rv']['ops']
+            if len(ops) != 3:
+                continue
+            l0, l1, l2 = (op_local(o) for o in ops)
+            if None in (l0, l1, l2):
+                continue
+            if 0 in payload_fields(l0) and 1 in payload_fields(l1) and 2 in mirq.backslice(b, [l1]) and 1 in payload_fields(l2) and 3 in mirq.backslice(b, [l2]):
+                flat = True
+        r4.inst({'slice_of_slice': 'Slice(origin, old_start + start, end + old_start) built from the payload of the inner Slice'}, ok=flat)
+        if not flat:
             r4.fail('slice/flatten', F, 'slice() no longer flattens a slice of a slice by adding the offsets')
-        # emptiness / whole-sequence shortcuts precede the construction
-        tests = [src(i['cond']) for i, _ in find_nodes(fn[0]['body'], lambda y: y.get('k') == 'if')]
-        ok2 = any('start>=end' in t_ for t_ in tests) and any('start==0' in t_ for t_ in tests)
-        r4.inst({'slice_guards': tests[:3]}, ok=ok2)
+        # (guards) whether a Slice is built at all is decided by a test relating start to end and one relating start to the length
+        lens = {t_['dest']['l'] for _, t_ in b.calls() if strip_generics(t_.get('callee') or '') == SEQ + '::len' and not t_['dest']['p']}
+        L, S = cdeps.influence(b, blocks=[i for i, j, s in aggs])
+        kinds = set()
+        for sw in S:
+            p = op_place(b.term(sw)['discr'])
+            if p is None:
+                continue
+            ds = mirq.backslice(b, [p['l']])
+            if 2 in ds and 3 in ds:
+                kinds.add('start~end')
+            if 2 in ds and ds & lens:
+                kinds.add('start~len')
+        ok2 = {'start~end', 'start~len'} <= kinds
+        r4.inst({'slice_construction_decided_by': sorted(kinds)}, ok=ok2)
         if not ok2:
-            r4.fail('slice/guards', F, 'slice() lost its emptiness / identity tests')
+            r4.fail('slice/guards', F, 'slice() builds a Slice without a test of start against %s: an empty or out-of-range slice is represented as Slice(start >= end), whose length underflows' % ' / '.join(sorted({'start~end', 'start~len'} - kinds)))
     r4.need(4)
 
     # ---------------- R15.5
@@ -111,16 +142,69 @@ def run(ctx):
         errs = [bb for bb, t in b.calls() if strip_generics(t.get('callee') or '') == 'xvalue::ManagedXError::new']
         neg = any(strip_generics(t.get('callee') or t.get('decl') or '').endswith('is_negative') for _, t in b.calls())
         tous = any(strip_generics(t.get('callee') or t.get('decl') or '').endswith('to_usize') for _, t in b.calls())
-        # idx >= len comparison (inside the map_or closure)
-        ge = False
+        # the comparison of the converted index with the length, wherever it is written (body or a closure handed to an
+        # Option adaptor), normalised to  idx <op> len
+        lens = {t_['dest']['l'] for _, t_ in b.calls() if strip_generics(t_.get('callee') or '') == SEQ + '::len' and not t_['dest']['p']}
+        idxs = {t_['dest']['l'] for _, t_ in b.calls() if strip_generics(t_.get('callee') or t_.get('decl') or '').endswith('to_usize') and not t_['dest']['p']}
+
+        def classify_parent(local):
+            ds = mirq.backslice(b, [local])
+            k = set()
+            if ds & lens:
+                k.add('len')
+            if ds & idxs:
+                k.add('idx')
+            return k
+
+        def classify(bx, op):
+            pl = op_place(op)
+            if pl is None:
+                return set()
+            if bx is b:
+                return classify_parent(pl['l'])
+            # inside a closure: a parameter stands for the payload of the adaptor's receiver, an upvar for the captured local
+            out = set()
+            for l in mirq.backslice(bx, [pl['l']]):
+                for kind, dbb, idx, x in bx.defs().get(l, []):
+                    if kind != 'stmt':
+                        continue
+                    q = x['rv'].get('place') or (op_place(x['rv']['op']) if x['rv']['k'] in ('use', 'cast') else None)
+                    if q and q['l'] == 1 and any(isinstance(e, dict) and 'f' in e for e in q['p']):
+                        fidx = [e['f'] for e in q['p'] if isinstance(e, dict) and 'f' in e][0]
+                        for i, j, s in b.stmts():
+                            if s['k'] == 'assign' and s['rv']['k'] == 'agg' and s['rv'].get('ak') == 'closure' and s['rv'].get('def') == bx.id and fidx < len(s['rv']['ops']):
+                                ol = op_local(s['rv']['ops'][fidx])
+                                if ol is not None:
+                                    out |= classify_parent(ol)
+                if 2 <= l <= bx.d['argc'] and not bx.defs().get(l):
+                    for cbb, ct in b.calls():
+                        for a_ in ct['args'][1:]:
+                            al = op_local(a_)
+                            if al is None:
+                                continue
+                            kk, vv = mirq.chase(b, al)
+                            if kk == 'rv' and vv[2]['rv']['k'] == 'agg' and vv[2]['rv'].get('def') == bx.id:
+                                rl = op_local(ct['args'][0])
+                                if rl is not None:
+                                    out |= classify_parent(rl)
+            return out
+        MIRROR = {'Ge': 'Le', 'Gt': 'Lt', 'Le': 'Ge', 'Lt': 'Gt'}
+        rels = []
         for bx in [b] + [x for x in mir.bodies if x.id.startswith(b.id + '::{closure')]:
             for _, _, s in bx.stmts():
-                if s['k'] == 'assign' and s['rv']['k'] == 'bin' and s['rv']['op'] in ('Ge', 'Lt') and s['rv'].get('aty') == 'usize':
-                    ge = True
-        ok = len(errs) >= 4 and neg and tous and ge
-        r6.inst({'error_exits': len(errs), 'negative_handling': neg, 'usize_conversion': tous, 'length_comparison': ge}, ok=ok)
+                if s['k'] == 'assign' and s['rv']['k'] == 'bin' and s['rv']['op'] in MIRROR and s['rv'].get('aty') == 'usize':
+                    ka, kb = classify(bx, s['rv']['a']), classify(bx, s['rv']['b'])
+                    # a normalised negative index is itself computed from the length: `idx` wins over `len`
+                    ka, kb = ('idx' if 'idx' in ka else ''.join(ka)), ('idx' if 'idx' in kb else ''.join(kb))
+                    if ka == 'idx' and kb == 'len':
+                        rels.append(s['rv']['op'])
+                    elif ka == 'len' and kb == 'idx':
+                        rels.append(MIRROR[s['rv']['op']])
+        ge = bool(rels) and all(r in ('Ge', 'Lt') for r in rels)
+        ok = len(errs) >= 3 and neg and tous and ge
+        r6.inst({'error_exits': len(errs), 'negative_handling': neg, 'usize_conversion': tous, 'index_vs_length_tests': ['idx %s len' % r for r in rels]}, ok=ok)
         if not ok:
-            r6.fail('value_to_idx/shape', mirq.site(b, 0), 'value_to_idx lost one of its cases (negative index, infinite sequence, unrepresentable, out of range)')
+            r6.fail('value_to_idx/shape', mirq.site(b, 0), 'value_to_idx lost one of its cases (negative index, infinite sequence, unrepresentable, out of range) or tests the index against the length with the wrong relation: %s' % (['idx %s len' % r for r in rels] or 'no test'))
     r6.need(1)
 
     # ---------------- R15.7
